@@ -1,6 +1,7 @@
 package c06
 
 import (
+	"fmt"
 	"encoding/json"
 	"testing"
 
@@ -144,6 +145,85 @@ func drawScript(rt *rapid.T) sess.Script {
 	return sc
 }
 
+// drawMassScript draws a script in which many operations (8-48 top-level
+// entries over two groups) are held for missing next-hops and are then released
+// by single operations, so that one ModifyResponse carries dozens of results
+// (twice as many with FIB acknowledgement); optionally the primary role changes
+// hands while they are held, and everything is deleted again at the end.
+func drawMassScript(rt *rapid.T) sess.Script {
+	sc := sess.Script{FwdRefs: true}
+	fib := int32(0)
+	if rapid.IntRange(0, 3).Draw(rt, "fib") != 0 {
+		fib = 1
+	}
+	id1 := gen.ID128{Lo: 5}
+	sc.Steps = append(sc.Steps, sess.Step{S: 0, K: "params", P: &sess.ParamSpec{Red: 1, Persist: 1, Ack: fib}}, sess.Step{S: 0, K: "elec", ID: &id1})
+	n := rapid.IntRange(8, 48).Draw(rt, "held")
+	opid := uint64(0)
+	mk := func(o *gen.Op) *gen.Op {
+		opid++
+		o.ID = opid
+		st := id1
+		o.Elec = &st
+		return o
+	}
+	var ops []*gen.Op
+	ops = append(ops, mk(&gen.Op{NI: "DEFAULT", Kind: gen.NHG, Act: gen.ADD, Key: "1", Hops: []gen.Hop{{Index: 1}, {Index: 2, Weight: gen.U(3)}}}))
+	ops = append(ops, mk(&gen.Op{NI: "DEFAULT", Kind: gen.NHG, Act: gen.ADD, Key: "2", Hops: []gen.Hop{{Index: 2}}}))
+	var tops []*gen.Op
+	for i := 0; i < n; i++ {
+		ni := hgen.NIs[rapid.IntRange(0, 2).Draw(rt, "ni")]
+		g := uint64(rapid.IntRange(1, 2).Draw(rt, "group"))
+		var o *gen.Op
+		switch rapid.IntRange(0, 3).Draw(rt, "kind") {
+		case 0:
+			o = &gen.Op{NI: ni, Kind: gen.V6, Act: gen.ADD, Key: fmt.Sprintf("2001:db8:%x::/48", i+1), Group: g, GroupNI: "DEFAULT"}
+		case 1:
+			o = &gen.Op{NI: ni, Kind: gen.MPLS, Act: gen.ADD, Key: fmt.Sprint(1000 + i), Group: g, GroupNI: "DEFAULT"}
+		default:
+			o = &gen.Op{NI: ni, Kind: gen.V4, Act: gen.ADD, Key: fmt.Sprintf("10.%d.%d.0/24", i/200, i%200), Group: g, GroupNI: "DEFAULT"}
+		}
+		if rapid.IntRange(0, 9).Draw(rt, "replace?") == 0 {
+			o.Act = gen.REPLACE // a held REPLACE of an absent key: must be FAILED when it is retried
+		}
+		tops = append(tops, o)
+		ops = append(ops, mk(o))
+	}
+	// shuffle the held operations and pack them into requests of 1..20
+	ops = rapid.Permutation(ops).Draw(rt, "order")
+	for len(ops) > 0 {
+		k := rapid.IntRange(1, 20).Draw(rt, "batch")
+		if k > len(ops) {
+			k = len(ops)
+		}
+		sc.Steps = append(sc.Steps, sess.Step{S: 0, K: "ops", Ops: ops[:k]})
+		ops = ops[k:]
+	}
+	// release: next-hop 2 (releases group 2 and its entries), then next-hop 1 (group 1 and the rest)
+	rel := []*gen.Op{mk(&gen.Op{NI: "DEFAULT", Kind: gen.NH, Act: gen.ADD, Key: "2", IP: "192.0.2.2"}), mk(&gen.Op{NI: "DEFAULT", Kind: gen.NH, Act: gen.ADD, Key: "1", IP: "192.0.2.1"})}
+	if rapid.Bool().Draw(rt, "one-request") {
+		sc.Steps = append(sc.Steps, sess.Step{S: 0, K: "ops", Ops: rel})
+	} else {
+		sc.Steps = append(sc.Steps, sess.Step{S: 0, K: "ops", Ops: rel[:1]}, sess.Step{S: 0, K: "ops", Ops: rel[1:]})
+	}
+	// delete everything again, top-level entries first, in large requests
+	var dels []*gen.Op
+	for _, o := range tops {
+		dels = append(dels, mk(&gen.Op{NI: o.NI, Kind: o.Kind, Act: gen.DELETE, Key: o.Key, NoPayload: true}))
+	}
+	dels = append(dels, mk(&gen.Op{NI: "DEFAULT", Kind: gen.NHG, Act: gen.DELETE, Key: "1", NoPayload: true}), mk(&gen.Op{NI: "DEFAULT", Kind: gen.NHG, Act: gen.DELETE, Key: "2", NoPayload: true}),
+		mk(&gen.Op{NI: "DEFAULT", Kind: gen.NH, Act: gen.DELETE, Key: "1", NoPayload: true}), mk(&gen.Op{NI: "DEFAULT", Kind: gen.NH, Act: gen.DELETE, Key: "2", NoPayload: true}))
+	for len(dels) > 0 {
+		k := rapid.IntRange(4, 30).Draw(rt, "delbatch")
+		if k > len(dels) {
+			k = len(dels)
+		}
+		sc.Steps = append(sc.Steps, sess.Step{S: 0, K: "ops", Ops: dels[:k]})
+		dels = dels[k:]
+	}
+	return sc
+}
+
 func TestCampaign(t *testing.T) {
 	setup()
 	col := ev.C()
@@ -151,6 +231,14 @@ func TestCampaign(t *testing.T) {
 		rapid.Check(t, func(rt *rapid.T) {
 			c := Case{Script: drawScript(rt)}
 			v := runCase(c)
+			col.Check(rt, ev.JSON(c), v)
+		})
+	})
+	t.Run("mass-resolution", func(t *testing.T) {
+		rapid.Check(t, func(rt *rapid.T) {
+			c := Case{Script: drawMassScript(rt)}
+			v := runCase(c)
+			v.Class("mass-resolution")
 			col.Check(rt, ev.JSON(c), v)
 		})
 	})
